@@ -85,7 +85,10 @@ class Atoms:
                     self.vals[atom] = float(fn())
                 except Exception as e:  # backend cannot supply it: conversions needing it are not judged
                     self.unavailable[atom] = exc_class(e)
-        if material is not None:
+        if material is not None and getattr(material, "name", None) in MAT_VALUES:
+            # independent reference: the numbers the harness gave the material, not what its getters report
+            self.vals["rhomat"], self.vals["Mmat"] = MAT_VALUES[material.name]
+        elif material is not None:
             for atom, fn in (("rhomat", lambda: material.density), ("Mmat", lambda: material.molar_mass)):
                 try:
                     self.vals[atom] = float(fn())
@@ -154,6 +157,36 @@ def custom_adsorbate(name="verif_gas", with_props=True, store=True):
     return pygaps.Adsorbate(name, store=store, **props)
 
 
+MAT_VALUES = {}   # material name -> (density, molar mass) the harness intends it to have
+
+
+def late_material(name="verif_mat_late", density=2.291, molar_mass=163.7):
+    """A registered material whose density / molar mass arrive AFTER construction, through its properties dictionary."""
+    import pygaps
+    for m in pygaps.MATERIAL_LIST:
+        if m.name == name:
+            return m
+    m = pygaps.Material(name, store=True, density=0.5, molar_mass=10.0)
+    m.properties["density"] = density
+    m.properties["molar_mass"] = molar_mass
+    MAT_VALUES[name] = (density, molar_mass)
+    return m
+
+
+def rebound_material(name="verif_mat_rebound", density=0.811, molar_mass=905.2):
+    """A registered bare material that receives its properties when an isotherm is built from a dictionary naming it."""
+    import pygaps
+    for m in pygaps.MATERIAL_LIST:
+        if m.name == name:
+            return m
+    m = pygaps.Material(name, store=True)
+    pygaps.PointIsotherm(pressure=[1.0, 2.0], loading=[1.0, 2.0], material={"name": name, "density": density, "molar_mass": molar_mass},
+                         adsorbate="nitrogen", temperature=77.0, pressure_mode="absolute", pressure_unit="bar", loading_basis="molar",
+                         loading_unit="mmol", material_basis="mass", material_unit="g", temperature_unit="K")
+    MAT_VALUES[name] = (density, molar_mass)
+    return m
+
+
 def custom_material(name="verif_mat", density=1.737, molar_mass=419.3, store=True):
     import pygaps
     props = {}
@@ -164,6 +197,8 @@ def custom_material(name="verif_mat", density=1.737, molar_mass=419.3, store=Tru
     for m in pygaps.MATERIAL_LIST:
         if m.name == name:
             return m
+    if density is not None and molar_mass is not None:
+        MAT_VALUES[name] = (density, molar_mass)
     return pygaps.Material(name, store=store, **props)
 
 
